@@ -249,6 +249,7 @@ pub fn insp_alphabet() -> Vec<Mac> {
         c(StaticCall, BLOG, 0, 50_000), // a LOG that is stepped but rejected (static mode)
         c(Call, BLOG, 0, 700),          // a LOG that runs out of gas
         Mac::LogBare,                   // a LOG on an empty stack
+        c(Call, BLOGREV, 0, 50_000),    // a LOG whose frame reverts afterwards
     ]);
     a
 }
@@ -386,6 +387,125 @@ fn eof_drivers() -> Vec<(&'static str, Vec<u8>)> {
     v
 }
 
+/// Second transactions on a reused Evm: the first transaction runs to completion or is aborted by an
+/// injected database read fault (every read position, deviation bound 1); the second one must satisfy the
+/// same oracle as on a fresh instance. Nothing is committed, so both see the same world.
+pub const A2: Address = revm::primitives::address!("a000000000000000000000000000000000000002");
+fn reuse_menu() -> Vec<Vec<Mac>> {
+    use CallKind::*;
+    let c = |to, value| Mac::Call { kind: Call, to, value, gas: 100_000, out_len: 0 };
+    vec![
+        vec![],
+        vec![c(BOK, 0)],
+        vec![c(BNEST, 0)],
+        vec![c(BLOGREV, 0), Mac::Log(1)],
+        vec![Mac::Log(1)],
+        vec![Mac::Create { init: Init::Code1, value: 0 }],
+        vec![c(BSD, 0)],
+        vec![Mac::Sload(1), c(BWRITE, 0)],
+    ]
+}
+fn reuse_case(spec: SpecId, p1: &[Mac], p2: &[Mac]) -> (TxCase, TxCase) {
+    let mut c1 = make_case(spec, TxVar::Legacy, &assemble(p1)).unwrap();
+    c1.world.insert(A2, PlainAcc::contract(&assemble(p2)).with_balance(U256::from(10)).with_storage(1, 5));
+    c1.tx.gas_limit = 3_000_000;
+    let mut c2 = c1.clone();
+    c2.tx.to = Some(A2);
+    (c1, c2)
+}
+/// runs (first with a fault at read `fail_at`, then second) on one Evm; returns the second's outcome and
+/// recordings, and the number of database reads the first transaction made
+pub fn exec_reused(c1: &TxCase, c2: &TxCase, fail_at: Option<u64>, skip_first: bool) -> (Outcome, Both, u64) {
+    use crate::props::c31::FaultDb;
+    let spec = c1.spec();
+    let mut db = FaultDb::new(&c1.world);
+    db.fail_at = fail_at;
+    let fresh = || {
+        let mut e = Both::default();
+        e.mon = Mon::new(true);
+        e
+    };
+    let mut evm = Evm::builder().with_db(db).with_external_context(fresh()).with_env(c1.env()).with_spec_id(spec).append_handler_register(monitor_register).append_handler_register(inspector_handle_register).build();
+    let mut reads = 0;
+    if !skip_first {
+        let _ = catch(|| evm.transact());
+        reads = evm.context.evm.db.reads.get();
+        evm.context.evm.db.fail_at = None;
+        evm.context.external = fresh();
+    }
+    evm.context.evm.inner.env = c2.env();
+    let r = catch(|| evm.transact());
+    let ext = std::mem::take(&mut evm.context.external);
+    let o = match r {
+        Ok(Ok(r)) => Outcome::from_result(Ok::<_, revm::primitives::EVMError<String>>(r)),
+        Ok(Err(e)) => Outcome { class: Class::Fatal, reason: format!("second transaction failed: {e:?}"), gas_used: 0, gas_refunded: 0, output: Bytes::new(), logs: vec![], created: None, state: Default::default() },
+        Err(p) => Outcome { class: Class::Fatal, reason: format!("panic: {p}"), gas_used: 0, gas_refunded: 0, output: Bytes::new(), logs: vec![], created: None, state: Default::default() },
+    };
+    (o, ext, reads)
+}
+fn run_reuse(ctx: &Ctx, which: u8) -> Acc {
+    let specs: Vec<SpecId> = match ctx.tier {
+        Tier::Quick => vec![SpecId::CANCUN],
+        Tier::Thorough => vec![SpecId::BYZANTIUM, SpecId::BERLIN, SpecId::CANCUN, SpecId::PRAGUE],
+    };
+    let menu = reuse_menu();
+    let mut jobs = vec![];
+    for s in &specs {
+        for (i, p1) in menu.iter().enumerate() {
+            for (j, p2) in menu.iter().enumerate() {
+                jobs.push((*s, i, j, p1.clone(), p2.clone()));
+            }
+        }
+    }
+    let accs: Vec<Acc> = jobs
+        .par_chunks(2)
+        .map(|ch| {
+            let mut a = Acc::new();
+            for (s, i, j, p1, p2) in ch {
+                let (c1, c2) = reuse_case(*s, p1, p2);
+                // reads of the undisturbed first transaction bound the fault positions
+                let (_, _, n) = exec_reused(&c1, &c2, None, false);
+                let (of, extf, _) = exec_reused(&c1, &c2, None, true);
+                let mut faults: Vec<Option<u64>> = vec![None];
+                faults.extend((0..n).map(Some));
+                for f in faults {
+                    let (o, ext, _) = exec_reused(&c1, &c2, f, false);
+                    a.evaluations += 1;
+                    a.states += 1;
+                    a.transitions += ext.rec.events.len() as u64;
+                    a.bump("reused_instance_second_transactions", 1);
+                    let mut v = if which == 29 { check_balanced(&o, &ext) } else { check_selfdestruct(&o, &ext) };
+                    if ext.rec.events != extf.rec.events {
+                        let at = ext.rec.events.iter().zip(&extf.rec.events).position(|(x, y)| x != y).unwrap_or(ext.rec.events.len().min(extf.rec.events.len()));
+                        v.push(("notifications-differ-on-reused-instance".into(), format!("{} notifications on the reused instance, {} on a fresh one; first difference at #{at}: {:?} vs {:?}", ext.rec.events.len(), extf.rec.events.len(), ext.rec.events.get(at), extf.rec.events.get(at))));
+                    }
+                    let _ = &of;
+                    a.distinct(&("reuse", s, i, j, f, &o.class, ext.rec.events.len()));
+                    a.outcome(&format!("reuse:{}", if f.is_some() { "after-fault" } else { "after-complete" }));
+                    for (k, m) in v {
+                        a.violation(Violation { key: k, msg: format!("{s:?} second transaction {p2:?} after {p1:?} (database fault at read {f:?}) on one Evm: {m}"), case: json!({"reuse": {"c1": c1, "c2": c2, "fail_at": f}}) });
+                    }
+                }
+            }
+            a
+        })
+        .collect();
+    merge_all(accs)
+}
+fn replay_reuse(case: &Value, which: u8) -> Option<Vec<Violation>> {
+    let r = case.get("reuse")?;
+    let c1: TxCase = serde_json::from_value(r["c1"].clone()).ok()?;
+    let c2: TxCase = serde_json::from_value(r["c2"].clone()).ok()?;
+    let f = r["fail_at"].as_u64();
+    let (o, ext, _) = exec_reused(&c1, &c2, f, false);
+    let (_, extf, _) = exec_reused(&c1, &c2, None, true);
+    let mut v = if which == 29 { check_balanced(&o, &ext) } else { check_selfdestruct(&o, &ext) };
+    if ext.rec.events != extf.rec.events {
+        v.push(("notifications-differ-on-reused-instance".into(), format!("{} notifications on the reused instance, {} on a fresh one", ext.rec.events.len(), extf.rec.events.len())));
+    }
+    Some(v.into_iter().map(|(k, m)| Violation { key: k, msg: m, case: case.clone() }).collect())
+}
+
 fn parse_cut(v: &Value) -> Option<(usize, InstructionResult)> {
     let a = v.as_array()?;
     let k = a.first()?.as_u64()? as usize;
@@ -398,21 +518,28 @@ fn parse_cut(v: &Value) -> Option<(usize, InstructionResult)> {
     Some((k, r))
 }
 pub fn replay29(case: &Value) -> Vec<Violation> {
+    if let Some(v) = replay_reuse(case, 29) {
+        return v;
+    }
     let c: TxCase = serde_json::from_value(case["case"].clone()).unwrap();
     let (o, ext) = exec_both(&c, parse_cut(&case["cut_call"]), parse_cut(&case["cut_create"]));
     check_balanced(&o, &ext).into_iter().map(|(k, m)| Violation { key: k, msg: m, case: case.clone() }).collect()
 }
 pub fn replay30(case: &Value) -> Vec<Violation> {
+    if let Some(v) = replay_reuse(case, 30) {
+        return v;
+    }
     let c: TxCase = serde_json::from_value(case["case"].clone()).unwrap();
     let (o, ext) = exec_both(&c, None, None);
     check_selfdestruct(&o, &ext).into_iter().map(|(k, m)| Violation { key: k, msg: m, case: case.clone() }).collect()
 }
 
 pub fn run29(ctx: &Ctx) -> i32 {
-    let acc = run_generic(ctx, 29);
+    let mut acc = run_generic(ctx, 29);
+    acc.merge(run_reuse(ctx, 29));
     let meta = Meta {
-        rule: "every macro program of depth <= 2 over the inspector alphabet (general alphabet + low-gas / value / static calls to a self-destructing contract, a depth-limit probe, a bare SELFDESTRUCT) x 5 transaction variants x 7 inspector behaviours (observe only; return an outcome from the 1st/2nd/3rd call or 1st/2nd create) on 7 (quick) / 19 (thorough) specs, plus 8 EOF driver containers (EOFCREATE of succeeding / reverting init containers, EXTCALL, EXTDELEGATECALL to a legacy target, EXTSTATICCALL, an EOF creation transaction) under OSAKA; distinct = distinct (spec, result, frame count, selfdestructs, logs)".into(),
-        assumptions: vec!["ground truth for executed instructions, appended logs and frame attempts comes from the harness monitor registered underneath the inspector".into(), "database errors between a notification and its end are outside the quantifier".into()],
+        rule: "every macro program of depth <= 2 over the inspector alphabet (general alphabet + low-gas / value / static calls to a self-destructing contract, a depth-limit probe, a bare SELFDESTRUCT) x 5 transaction variants x 7 inspector behaviours (observe only; return an outcome from the 1st/2nd/3rd call or 1st/2nd create) on 7 (quick) / 19 (thorough) specs, plus 8 EOF driver containers (EOFCREATE of succeeding / reverting init containers, EXTCALL, EXTDELEGATECALL to a legacy target, EXTSTATICCALL, an EOF creation transaction) under OSAKA; plus second transactions on a reused Evm: 8 x 8 program pairs, the first transaction completing or aborted by an injected database read fault at every read position, the second checked by the same oracle and against its notifications on a fresh instance; distinct = distinct (spec, result, frame count, selfdestructs, logs)".into(),
+        assumptions: vec!["ground truth for executed instructions, appended logs and frame attempts comes from the harness monitor registered underneath the inspector".into(), "a transaction that itself ends with a database error is outside the quantifier (its notifications are not judged); the transaction after it on the same Evm is inside".into()],
         bounds: json!({"depth": 2, "macros": insp_alphabet().len(), "inspector_behaviours": 7}),
         min_distinct: 200,
         exhaustive: true,
@@ -421,7 +548,8 @@ pub fn run29(ctx: &Ctx) -> i32 {
     finish(ctx, acc, meta, &replay29)
 }
 pub fn run30(ctx: &Ctx) -> i32 {
-    let acc = run_generic(ctx, 30);
+    let mut acc = run_generic(ctx, 30);
+    acc.merge(run_reuse(ctx, 30));
     let meta = Meta {
         rule: "every macro program of depth <= 2 (thorough: <= 3 on LONDON and CANCUN) over the inspector alphabet x 5 transaction variants (incl. entered with value, created in the same transaction) on 7/19 specs; distinct = distinct (spec, result, frames, completed and failed selfdestructs, logs)".into(),
         assumptions: vec!["ground truth = every opcode 0xff execution that ended with SelfDestruct: executing address, popped beneficiary, and the executing contract's balance before minus after, read by the step monitor from the public journaled state".into(), "beneficiaries whose balance would overflow are excluded (see C08 known finding)".into()],
